@@ -11,3 +11,150 @@ package gossip
 //@   opt implements github.com/andydunstall/piko/server/status.(Handler).Register
 //@   requires[group] group != nil
 //@   ensures[behind-group] grpAuth[group] && !old(gOpenRoute) ==> !gOpenRoute
+
+// ---------------------------------------------------------------------------
+// The syncer (C04, C11, C20): the gossip watcher that folds key changes into
+// the routing table.
+//
+// The mirror is stated pointwise, for the arbitrary fixed node gNode() and key
+// gKey() of pkg/gossip's watcher fold: wNode/wHas/wVal/wLeft/wUnreach are what
+// the watcher has been told (pkg/gossip proves they equal the visible gossip
+// state, C14); syncInv relates them to the pending set and the routing table.
+// The two together are the C04 mirror. The On* methods are atomic with respect
+// to each other (they run under the gossip state mutex), and are the only
+// writers of pending nodes and of remote routing-table nodes (callers-only).
+
+//@ immutable syncer.clusterState syncer.logger
+//@ nonnil syncer.clusterState syncer.logger
+
+//@ monitor syncer.mu level 30 self s guards syncer.pendingNodes, cluster.Node.Status, cluster.Node.Endpoints inv pendInv(s)
+
+//@ pure pendInv(s *syncer) bool = s.pendingNodes != nil && allocated(s.pendingNodes)
+//@    && (forall id string {s.pendingNodes[id]} :: id in s.pendingNodes ==> s.pendingNodes[id] != nil && allocated(s.pendingNodes[id]) && s.pendingNodes[id].ID == id && allocated(s.pendingNodes[id].Endpoints))
+
+// Pending nodes and routing-table nodes are distinct objects with distinct endpoint maps.
+//@ pure syncSep(s *syncer) bool = s.pendingNodes != s.clusterState.nodes
+//@    && (forall a string, id string :: a in s.pendingNodes && id in s.clusterState.nodes ==> s.pendingNodes[a] != s.clusterState.nodes[id] && (s.pendingNodes[a].Endpoints == nil || s.pendingNodes[a].Endpoints != s.clusterState.nodes[id].Endpoints))
+//@    && (forall a string, b string :: a in s.pendingNodes && b in s.pendingNodes && a != b && s.pendingNodes[a].Endpoints != nil ==> s.pendingNodes[a].Endpoints != s.pendingNodes[b].Endpoints)
+
+// What the syncer was last told for the two immutable keys of gNode() while it
+// was pending (sProxy, sAdmin) and what it was promoted with (cProxy, cAdmin).
+//@ ghost sProxy string
+//@ ghost sAdmin string
+//@ ghost cProxy string
+//@ ghost cAdmin string
+
+//@ pure statusOf(left bool, unreach bool) cluster.NodeStatus = left ? cluster.NodeStatusLeft : (unreach ? cluster.NodeStatusUnreachable : cluster.NodeStatusActive)
+
+// The endpoint count node x shows for the endpoint named by gKey() is what the watcher was told.
+//@ pure epMirror(x *cluster.Node) bool = hasPrefix(gKey(), "endpoint:") ==>
+//@        (!wHas ==> !epHas(x, cutPrefix(gKey(), "endpoint:")))
+//@     && (wHas && atoiOk(wVal) ==> epHas(x, cutPrefix(gKey(), "endpoint:")) && x.Endpoints[cutPrefix(gKey(), "endpoint:")] == atoi(wVal))
+
+//@ pure mirror(s *syncer) bool =
+//@        !(gNode() in s.pendingNodes && gNode() in s.clusterState.nodes)
+//@     && (!wNode ==> !(gNode() in s.pendingNodes) && !(gNode() in s.clusterState.nodes))
+//@     && (wNode && !wLeft ==> gNode() in s.pendingNodes || gNode() in s.clusterState.nodes)
+//@     && (gNode() in s.pendingNodes ==> !wLeft
+//@            && s.pendingNodes[gNode()].ProxyAddr == sProxy && s.pendingNodes[gNode()].AdminAddr == sAdmin && (sProxy == "" || sAdmin == "")
+//@            && (wUnreach ? s.pendingNodes[gNode()].Status == cluster.NodeStatusUnreachable : (s.pendingNodes[gNode()].Status == "" || s.pendingNodes[gNode()].Status == cluster.NodeStatusActive))
+//@            && epMirror(s.pendingNodes[gNode()]))
+//@     && (gNode() in s.clusterState.nodes ==>
+//@               s.clusterState.nodes[gNode()].ProxyAddr == cProxy && s.clusterState.nodes[gNode()].AdminAddr == cAdmin && cProxy != "" && cAdmin != ""
+//@            && s.clusterState.nodes[gNode()].Status == statusOf(wLeft, wUnreach)
+//@            && epMirror(s.clusterState.nodes[gNode()]))
+
+//@ pure syncInv(s *syncer) bool = pendInv(s) && stInv(s.clusterState) && syncSep(s) && (gNode() != s.clusterState.localID ==> mirror(s))
+
+//@ contract newSyncer
+//@   serves C04
+//@   requires[state] clusterState != nil
+//@   ensures[fresh] result != nil && fresh(result) && result.clusterState == clusterState
+//@   ensures[empty] pendInv(result) && (forall id string :: !(id in result.pendingNodes)) && fresh(result.pendingNodes)
+
+//@ contract (*syncer).OnJoin
+//@   serves C04 C11 C20
+//@   opt implements github.com/andydunstall/piko/pkg/gossip.(Watcher).OnJoin
+//@   requires[inv] syncInv(s)
+//@   ghost-set wNode = old(wNode) || nodeID == gNode()
+//@   ghost-set sProxy = (nodeID == gNode()) ? "" : old(sProxy)
+//@   ghost-set sAdmin = (nodeID == gNode()) ? "" : old(sAdmin)
+//@   ensures[inv] syncInv(s)
+
+//@ contract (*syncer).OnLeave
+//@   serves C04 C11 C20
+//@   opt implements github.com/andydunstall/piko/pkg/gossip.(Watcher).OnLeave
+//@   requires[inv] syncInv(s)
+//@   ghost-set wLeft = old(wLeft) || nodeID == gNode()
+//@   ensures[inv] syncInv(s)
+
+//@ contract (*syncer).OnReachable
+//@   serves C04 C11 C20
+//@   opt implements github.com/andydunstall/piko/pkg/gossip.(Watcher).OnReachable
+//@   requires[inv] syncInv(s)
+//@   ghost-set wUnreach = old(wUnreach) && nodeID != gNode()
+//@   ensures[inv] syncInv(s)
+
+//@ contract (*syncer).OnUnreachable
+//@   serves C04 C11 C20
+//@   opt implements github.com/andydunstall/piko/pkg/gossip.(Watcher).OnUnreachable
+//@   requires[inv] syncInv(s)
+//@   ghost-set wUnreach = old(wUnreach) || nodeID == gNode()
+//@   ensures[inv] syncInv(s)
+
+//@ contract (*syncer).OnExpired
+//@   serves C04 C11 C20
+//@   opt implements github.com/andydunstall/piko/pkg/gossip.(Watcher).OnExpired
+//@   requires[inv] syncInv(s)
+//@   ghost-set wNode = old(wNode) && nodeID != gNode()
+//@   ghost-set wHas = old(wHas) && nodeID != gNode()
+//@   ghost-set wLeft = old(wLeft) && nodeID != gNode()
+//@   ghost-set wUnreach = old(wUnreach) && nodeID != gNode()
+//@   ensures[inv] syncInv(s)
+
+//@ contract (*syncer).OnUpsertKey
+//@   serves C04 C11 C20
+//@   opt implements github.com/andydunstall/piko/pkg/gossip.(Watcher).OnUpsertKey
+//@   requires[inv] syncInv(s)
+//@   ghost-set wHas = (nodeID == gNode() && key == gKey()) ? true : old(wHas)
+//@   ghost-set wVal = (nodeID == gNode() && key == gKey()) ? value : old(wVal)
+//@   ghost-set sProxy = (nodeID == gNode() && key == "proxy_addr") ? value : old(sProxy)
+//@   ghost-set sAdmin = (nodeID == gNode() && key == "admin_addr") ? value : old(sAdmin)
+//@   ghost-set cProxy = (nodeID == gNode() && old(gNode() in s.pendingNodes) && gNode() in s.clusterState.nodes) ? s.clusterState.nodes[gNode()].ProxyAddr : old(cProxy)
+//@   ghost-set cAdmin = (nodeID == gNode() && old(gNode() in s.pendingNodes) && gNode() in s.clusterState.nodes) ? s.clusterState.nodes[gNode()].AdminAddr : old(cAdmin)
+//@   ensures[inv] syncInv(s)
+
+//@ contract (*syncer).OnDeleteKey
+//@   serves C04 C11 C20
+//@   opt implements github.com/andydunstall/piko/pkg/gossip.(Watcher).OnDeleteKey
+//@   requires[inv] syncInv(s)
+//@   ghost-set wHas = old(wHas) && !(nodeID == gNode() && key == gKey())
+//@   ensures[inv] syncInv(s)
+
+// ---- publishing the local node (C05, C20) ---------------------------------------
+
+//@ ghost gPubUpsert bool
+//@ ghost gPubDelete bool
+//@ ghost gPubKey string
+//@ ghost gPubVal string
+
+//@ iface (gossiper).UpsertLocal
+//@   acquires 20
+//@   modifies-all $gPubUpsert $gPubKey $gPubVal
+//@   ghost-set gPubUpsert = true
+//@   ghost-set gPubKey = key
+//@   ghost-set gPubVal = value
+//@ iface (gossiper).DeleteLocal
+//@   acquires 20
+//@   modifies-all $gPubDelete $gPubKey
+//@   ghost-set gPubDelete = true
+//@   ghost-set gPubKey = key
+
+//@ contract (*syncer).onLocalEndpointUpdate
+//@   serves C05 C04 C20
+//@   requires[gossiper] s.gossiper != nil
+//@   requires[unlocked] !held(State.mu)
+//@   requires[fresh-step] !gPubUpsert && !gPubDelete
+//@   ensures[key] gPubKey == "endpoint:" + endpointID
+//@   ensures[publish-count] localCount(s.clusterState, endpointID) > 0 ==> gPubUpsert && !gPubDelete && gPubVal == itoa(localCount(s.clusterState, endpointID))
+//@   ensures[withdraw-at-zero] localCount(s.clusterState, endpointID) <= 0 ==> gPubDelete && !gPubUpsert
